@@ -48,6 +48,18 @@ func genC16(r *Rand, tier string) *Case {
 				ops = append(ops, Op{K: "yield"})
 			}
 			c.Programs[key] = &Program{Stmts: []*StmtProg{{Cols: []ColSpec{{Name: "a", OID: pgwire.OIDInt4}}, Ops: ops}}}
+			if r.Chance(1, 4) {
+				// a query text of two or three statements: Close may arrive between
+				// two of them (the admitted command still runs all of them)
+				for n := r.Range(1, 2); n > 0; n-- {
+					more := []Op{}
+					if r.Bool() {
+						more = append(more, Op{K: "yield"})
+					}
+					more = append(more, Op{K: "row", Row: []Val{{G: "int32", I: int64(q)}}}, Op{K: "complete", Tag: "SELECT 1"})
+					c.Programs[key].Stmts = append(c.Programs[key].Stmts, &StmtProg{Cols: []ColSpec{{Name: "a", OID: pgwire.OIDInt4}}, Ops: more})
+				}
+			}
 			if r.Chance(1, 6) {
 				// a failing extended message followed by messages that are discarded
 				// until Sync (no handler runs for them, and none may be left pending)
@@ -358,7 +370,7 @@ func checkC16(x *Exec, c *Case) ([]Violation, bool) {
 func init() {
 	register(&Prop{
 		ID: "C16", Level: "exploration", QuickS: 30, ThoroughS: 480, Race: true,
-		Rule: "seeded shutdown scenarios under the seeded scheduler: 1-3 connections steered into the states idle-in-Read / half a message delivered / about to start a handler / inside a handler (statement functions with scripted yield points), plus 1-3 goroutines calling Close() once or twice; schedule points at every transport operation, callback entry and row write, at the hand-placed hooks (close.enter/decided/signalled/wait, cmd.before-admission/admitted/done) and in front of every atomic, WaitGroup, channel and mutex operation of the library (spliced by cmd/instrument, so the windows between closing.Load, closing.Store, close(closer), wg.Add and wg.Wait are all steerable); strategies: uniform, PCT (depth 1-3) and, per case, 6 hold-until plans drawn over the schedule points discovered in the first run (park a connection at p until a Close caller has passed q, the reverse, and one Close caller against another); in a fifth of the scenarios one peer stalls (from some write on it never reads again: the server's write blocks for good); oracle: event-order monitor over global sequence numbers (no Close-caller panic, no handler/parser interval straddling a Close return, no handler start after the first Close return, every Close returns once handlers may finish, Serve returns nil), process survival, and the -race shard with the HB-transparent scheduler; authenticating servers with peers that go silent at or inside the password message; scenario CloseFirst (one Close returns before Serve is called: Serve must return, no handler may run); servers with two listeners (Serve called twice); handlers that stay busy for 0.1 s - 1 h of simulated time; a listener whose Accept fails (not net.ErrClosed) before Close is called; non-trivial = a handler or parser event fell between the call and the return of some Close; distinct = distinct case content hashes; distinct_interleavings = distinct (task, point) decision sequences",
+		Rule: "seeded shutdown scenarios under the seeded scheduler: 1-3 connections steered into the states idle-in-Read / half a message delivered / about to start a handler / inside a handler (statement functions with scripted yield points), plus 1-3 goroutines calling Close() once or twice; schedule points at every transport operation, callback entry and row write, at the hand-placed hooks (close.enter/decided/signalled/wait, cmd.before-admission/admitted/done) and in front of every atomic, WaitGroup, channel and mutex operation of the library (spliced by cmd/instrument, so the windows between closing.Load, closing.Store, close(closer), wg.Add and wg.Wait are all steerable); strategies: uniform, PCT (depth 1-3) and, per case, 6 hold-until plans drawn over the schedule points discovered in the first run (park a connection at p until a Close caller has passed q, the reverse, and one Close caller against another); in a fifth of the scenarios one peer stalls (from some write on it never reads again: the server's write blocks for good); oracle: event-order monitor over global sequence numbers (no Close-caller panic, no handler/parser interval straddling a Close return, no handler start after the first Close return, every Close returns once handlers may finish, Serve returns nil), process survival, and the -race shard with the HB-transparent scheduler; authenticating servers with peers that go silent at or inside the password message; scenario CloseFirst (one Close returns before Serve is called: Serve must return, no handler may run); servers with two listeners (Serve called twice); handlers that stay busy for 0.1 s - 1 h of simulated time; query texts of two or three statements; statement functions that panic inside an extended-protocol Execute; a listener whose Accept fails (not net.ErrClosed) before Close is called; non-trivial = a handler or parser event fell between the call and the return of some Close; distinct = distinct case content hashes; distinct_interleavings = distinct (task, point) decision sequences",
 		Components: []string{
 			"real: Serve accept loop and closer goroutine, Close, per-command admission (closing/wg/closer), command loop, handlers, buffer reader/writer",
 			"stub: listener/connections (simulated), Close callers (harness goroutines), handler programs; scheduler: harness/kernel.go decides which goroutine runs at every schedule point",
